@@ -175,18 +175,7 @@ func (m *c02Model) clone() *c02Model {
 	return n
 }
 
-func coverLayout(ls []geom.Layout) geom.Layout {
-	max := geom.NoLayout
-	for _, l := range ls {
-		switch {
-		case (l == geom.XYZ && max == geom.XYM) || (l == geom.XYM && max == geom.XYZ):
-			max = geom.XYZM
-		case l > max:
-			max = l
-		}
-	}
-	return max
-}
+func coverLayout(ls []geom.Layout) geom.Layout { return ref.Cover(ls) }
 
 func (m *c02Model) whole() *ref.G {
 	g := &ref.G{Kind: m.kind, Layout: m.layout}
